@@ -37,6 +37,7 @@ def run(tier, replay=None):
         rep.extra["tlc_by_family"] = {cc.FAMILY_NAMES[f]: {"distinct": r["distinct"], "generated": r["generated"],
                                                            "wall_s": round(r["wall_s"], 1)} for f, r in results.items()}
     cc.deviations_still_break(rep, PID, tier, wd, inv)
+    cc.selftest_switches(rep, PID, wd)
 
     sums = cc.replay(rep, PID, bins, "c05", beh, [0, 1, 2] if thorough else [0, 1],
                      extra_args=["--files-every", "1" if thorough else "2"])
